@@ -22,6 +22,10 @@ class Trk:
     def good(self) -> bool:
         return self._d["good"]
 
+    # same name as Jet.scaled / Evt.scaled, different parameter order and defaults: filling defaults from the wrong class shows
+    def scaled(self, off: int = 2, f: float = 0.5) -> float:
+        return self._d["pt"] * f + off
+
 
 class Jet:
     def __init__(self, d, S=Seq):
@@ -61,6 +65,9 @@ class Evt:
 
     def run(self) -> int:
         return self._d["run"]
+
+    def scaled(self, f: float = 3.0, off: int = 1) -> float:
+        return self._d["met"] * f + off
 
     def nums(self) -> Iterable[int]:
         return self._S(self._d["nums"])
